@@ -265,29 +265,29 @@ def ksweeps(ks=range(0, 16)):
 def endings():
     out = []
     for outcome, exp in (('return', 'none'), ('raise', 'ValueError: verif'), ('exit', 'SystemExit'), ('hard', 'none')):
-        steps = START + [['call', 'W', 'run_session'], settle(0.3), ['child', outcome], ['await', 'W', 8.0], settle(),
+        steps = START + [['call', 'W', 'run_session'], settle(0.3), ['child', outcome], ['await', 'W', 25.0], settle(),
                          ['call', 'A', 'result'], settle(), ['sample']]
         out.append(S(steps, dict(family='ending', outcome=outcome, expect_result=exp)))
     # the child process outlives the script body (a non-daemon thread): finished only after it has gone,
     # and a reset + run right after must not overlap with it
-    steps = START + [['call', 'W', 'run_session'], settle(0.3), ['child', 'linger'], ['await', 'W', 10.0], ['child_reset'],
+    steps = START + [['call', 'W', 'run_session'], settle(0.3), ['child', 'linger'], ['await', 'W', 25.0], ['child_reset'],
                      ['call', 'A', 'reset'], settle(0.05), ['call', 'A', 'run'], settle(0.3), ['child', 'return'], settle(0.4),
                      ['call', 'A', 'result'], settle(), ['sample']]
     out.append(S(steps, dict(family='ending', outcome='linger', expect_result='none')))
     for sig, exp in (('interrupt', 'KeyboardInterrupt'), ('terminate', 'none'), ('kill', 'none')):
         # while the script is busy (after the prompt was answered)
-        steps = START + [['call', 'W', 'run_session'], settle(0.3), ['call', 'A', sig], ['await', 'W', 8.0], settle(),
+        steps = START + [['call', 'W', 'run_session'], ['wait_child_in_script'], settle(0.3), ['call', 'A', sig], ['await', 'W', 25.0], settle(),
                          ['call', 'A', 'result'], settle(), ['sample']]
         out.append(S(steps, dict(family='ending', outcome=sig, point='busy', expect_result=exp)))
         # while a prompt is open in the main thread
-        steps = START + [['call', 'W', 'run_session'], settle(0.4), ['call', 'A', sig], ['await', 'W', 8.0], settle(),
+        steps = START + [['call', 'W', 'run_session'], ['wait_prompt_open'], settle(0.4), ['call', 'A', sig], ['await', 'W', 25.0], settle(),
                          ['call', 'A', 'result'], settle(), ['sample']]
         out.append(S(steps, dict(family='ending', outcome=sig, point='prompt-open', expect_result=exp), config={'answer': None}))
     # a signal that arrives after the script has returned, while the worker is still draining its event queue
     # (the relay is held in a hook of the main process, so the queue cannot empty)
     for sig in ('interrupt', 'terminate'):
-        steps = START + [['hold', 'on_end_prompt'], ['call', 'W', 'run_session'], settle(0.4), ['child', 'return'], ['sleep', 0.8],
-                         ['call', 'A', sig], ['sleep', 0.6], ['release_all'], ['unhold', 'on_end_prompt'], ['await', 'W', 10.0], settle(),
+        steps = START + [['hold', 'on_end_prompt'], ['call', 'W', 'run_session'], ['wait_child_in_script'], settle(0.4), ['child', 'return'], ['wait_ctl_ack'], ['sleep', 0.8],
+                         ['call', 'A', sig], ['sleep', 0.6], ['release_all'], ['unhold', 'on_end_prompt'], ['await', 'W', 25.0], settle(),
                          ['call', 'A', 'result'], settle(), ['sample']]
         out.append(S(steps, dict(family='ending', outcome=sig, point='draining')))
     return out
@@ -314,7 +314,7 @@ def continuous():
     steps = START + one_run('A', 'run_and_continue') + [['call', 'B', 'run_continue_and_wait'], settle(0.3)] + en + [['sample']]
     out.append(S(steps, dict(family='continuous', case='wait-variant-refused'), config={'answer': None}))
     # run_continue_and_wait accepted
-    steps = START + [['call', 'W', 'run_continue_and_wait'], settle(0.4)] + en + [['child', 'return'], ['await', 'W', 8.0], settle()] + en + [['sample']]
+    steps = START + [['call', 'W', 'run_continue_and_wait'], settle(0.4)] + en + [['child', 'return'], ['await', 'W', 25.0], settle()] + en + [['sample']]
     out.append(S(steps, dict(family='continuous', case='wait-variant-accepted'), config={'answer': None}))
     # two requests waiting on the lock at the same time behind a plain run that is starting; both refused
     steps = START + [['hold', 'on_start_run'], ['call', 'A', 'run'], settle(0.3), ['call', 'B', 'run_and_continue'], settle(0.1),
